@@ -182,8 +182,9 @@ def py_go_decode(lit):
             if e in tab: out.append(tab[e]); i += 2; continue
             if e in 'xuU':
                 k = {'x': 2, 'u': 4, 'U': 8}[e]
-                try: out.append(int(lit[i + 2:i + 2 + k], 16))
-                except ValueError: return None
+                hx = lit[i + 2:i + 2 + k]
+                if len(hx) != k or any(ch not in '0123456789abcdefABCDEF' for ch in hx): return None      # exactly k hex digits (int() would also take a shorter or signed text)
+                out.append(int(hx, 16))
                 if e == 'x' and out[-1] >= 0x80: return None      # \xNN is a byte, not a code point: a lone byte >= 0x80 is not the UTF-8 encoding of any character
                 i += 2 + k; continue
             return None
